@@ -38,6 +38,7 @@ impl Sub for Reorder {
         let p = TokCaseParams {
             dict: DictParams {
                 max_rows: 20,
+                conn: crate::gen::dict::ConnChoice::AnyOrWide,
                 ..DictParams::default()
             },
             n_sentences: 5,
@@ -173,7 +174,7 @@ pub fn run(opts: &Opts) -> Report {
     ];
     let a = Reorder;
     crate::props::committed_replays(&a, opts, &mut rep);
-    run_sub(&a, opts, opts.tier.pick(5000, 100_000), &mut rep);
+    run_sub(&a, opts, opts.tier.pick(10_000, 150_000), &mut rep);
     crate::props::cli::c13(opts, &mut rep, opts.tier.pick(40, 600));
     rep
 }
